@@ -3,6 +3,7 @@
 import random
 from typing import Any, Dict, Iterator, List, Optional
 
+import core
 from core import Case, Prop, SelfCheckFailure, InfraError
 from gen import hx, unhx, rbytes, pool
 
@@ -147,11 +148,18 @@ def _view(r) -> Dict[str, Any]:
     return out
 
 
+def _tlv_view(t) -> Dict[str, Any]:
+    """type, value and length of a TLV object (all its state) for the isolation probe"""
+    return {"type": int(t.tlv_type), "value": hx(t.value), "packet_len": int(t.packet_len)}
+
+
 def _msg_to_user(raw: bytes) -> MessageToUserTlv:
     """decode a packed TLV as message to user — directly and through the generic TLV + holder"""
     mu = MessageToUserTlv.unpack(raw)
     mu2 = TlvHolder(CfdpTlv.unpack(raw)).to_msg_to_user()
     _need(isinstance(mu, MessageToUserTlv) and isinstance(mu2, MessageToUserTlv), "not a MessageToUserTlv")
+    # messages decoded by earlier calls must still show what they showed then
+    core.ISOLATION.check("MessageToUserTlv", mu, _tlv_view)
     _need(bytes(mu.value) == bytes(mu2.value) and mu == mu2, "unpack and TlvHolder.to_msg_to_user disagree")
     a, b = mu.is_reserved_cfdp_message(), mu2.is_reserved_cfdp_message()
     _need(bool(a) == bool(b), "is_reserved_cfdp_message differs between the two decoding routes")
@@ -164,7 +172,8 @@ def _reserved_of(raw: bytes) -> Optional[ReservedCfdpMessage]:
     r = mu.to_reserved_msg_tlv()
     _need((r is not None) == flag, "to_reserved_msg_tlv() is None exactly when the message is not reserved: violated")
     if r is not None:
-        _need(bytes(r.value) == bytes(mu.value) and bytes(r.pack()) == bytes(mu.pack()),
+        core.ISOLATION.check("ReservedCfdpMessage", r, _tlv_view)
+        _need(bytes(r.value) == bytes(mu.value) and core.pack_stable(r, "ReservedCfdpMessage.pack() of a converted message") == bytes(mu.pack()),
               "reserved message differs from the message-to-user TLV it was converted from")
     return r
 
@@ -223,7 +232,7 @@ def op_view(a):
 
 def op_new(a):
     r = ReservedCfdpMessage(a["msg_type"], unhx(a["value"]))
-    raw = bytes(r.pack())
+    raw = core.pack_stable(r, "ReservedCfdpMessage.pack()")
     _need(len(raw) == r.packet_len, "len(pack()) != packet_len")
     return {"raw": hx(raw), **_classify(r)}
 
@@ -231,16 +240,19 @@ def op_new(a):
 # ---------------------------------------------------------------- builders: pack -> TLV -> reserved -> parameters
 def _roundtrip(msg, a, same_params=None):
     _need(isinstance(msg, ReservedCfdpMessage), "builder is not a ReservedCfdpMessage")
-    raw = bytes(msg.pack())
-    _need(bytes(msg.pack()) == raw, "pack() twice gives different octets")
+    # (packs twice, the caller extending / modifying the first returned buffer in between)
+    raw = core.pack_stable(msg, type(msg).__name__ + ".pack()")
     _need(len(raw) == msg.packet_len, f"len(pack())={len(raw)} != packet_len={msg.packet_len}")
     _need(int(msg.tlv_type) == int(TlvType.MESSAGE_TO_USER) == raw[0], "reserved message is not a message-to-user TLV")
     g = msg.to_generic_msg_to_user_tlv()
-    _need(isinstance(g, MessageToUserTlv) and bytes(g.pack()) == raw, "to_generic_msg_to_user_tlv() packs differently")
+    _need(isinstance(g, MessageToUserTlv) and core.pack_stable(g, "to_generic_msg_to_user_tlv().pack()") == raw,
+          "to_generic_msg_to_user_tlv() packs differently")
+    _need(bytes(msg.pack()) == raw, "pack() after to_generic_msg_to_user_tlv().pack() gives different octets")
     mu = _msg_to_user(raw + unhx(a["suffix"]))
     r2 = mu.to_reserved_msg_tlv()
     if r2 is None:
         return {"raw": hx(raw), "reserved": False}
+    core.ISOLATION.check("ReservedCfdpMessage", r2, _tlv_view)
     v = _view(r2)
     # the builder object itself must show the same parameters as the decoded one
     _need(_view(msg) == v, "getters of the builder object and of the decoded message disagree")
@@ -565,6 +577,24 @@ class C18(Prop):
         yield from self.gen_octet_sweeps(rng, R)
         yield from self.gen_malformed(rng, R)
         yield from self.gen_records(rng, R)
+        yield from self.gen_sequences(rng, R)
+
+    # -- sequences: a message decoded earlier must not follow a later decode; long messages packed repeatedly ---------
+    def gen_sequences(self, rng, R):
+        for _ in range(20 * R):
+            w, sw, qw = rng.choice(W), rng.choice(W), rng.choice(W)
+            a = v_put_req(w, rng.randrange(256 ** w), name(rng, rng.randint(40, 100)), name(rng, rng.randint(40, 100)))
+            b = v_orig(sw, rng.randrange(256 ** sw), qw, rng.randrange(256 ** qw))
+            c = v_dir_resp(bool(rng.getrandbits(1)), name(rng, rng.randint(0, 9)), name(rng, rng.randint(70, 120)))
+            d = rbytes(rng, rng.randint(0, 12))
+            for v in (a, b, a, c, d, c, b):
+                yield view_case(v, "valid", "seq-decode")
+                if rng.random() < 0.3:
+                    yield Case({"op": "rsv_is_reserved", "raw": hx(tlv(v) + rbytes(rng, 2))}, "valid", tag="seq-decode")
+            yield Case({"op": "rsv_b_dir_request", "path": hx(name(rng, rng.randint(64, 120))), "name": hx(name(rng, rng.randint(0, 100))),
+                        "suffix": sfx(rng)}, "valid", tag="seq-pack-long")
+            yield Case({"op": "rsv_new", "msg_type": rng.choice(PROXY_TYPES + DIR_TYPES + [ORIG_TYPE]),
+                        "value": hx(rbytes(rng, rng.randint(64, 250)))}, "valid", tag="seq-pack-long")
 
     # -- proxy put request -------------------------------------------------------------------------
     def gen_put_request(self, rng, R, thorough):
